@@ -197,11 +197,17 @@ func (z *StreamLexer) Rewind(pos int) {
 
 // Lexeme returns the bytes of the current selection.
 func (z *StreamLexer) Lexeme() []byte {
+	if z.pos > len(z.buf) { // make sure we peeked at least as much as we select, as Shift does
+		z.read(z.pos - 1)
+	}
 	return z.buf[z.start:z.pos]
 }
 
 // Skip collapses the position to the end of the selection.
 func (z *StreamLexer) Skip() {
+	if z.pos > len(z.buf) { // make sure we peeked at least as much as we skip, as Shift does
+		z.read(z.pos - 1)
+	}
 	z.start = z.pos
 }
 
